@@ -9,8 +9,8 @@ import runner_props
 from runner_props import viol
 
 PROP = "C13"
-LEAN_MODULES = ["PamsProps.C13", "PamsProps.SimE2E", "PamsProps.SrcRunner"]
-NAMESPACES = ["Pams.C13", "Pams.C13", "Pams.C13"]
+LEAN_MODULES = ["PamsProps.C13", "PamsProps.SimE2E", "PamsProps.SrcRunner", "PamsProps.SrcSimulator"]
+NAMESPACES = ["Pams.C13", "Pams.C13", "Pams.C13", "Pams.C13"]
 DRIVERS = ["Hooks", "Runner", "PyRun"]
 TRUSTED = [
     "dict buckets of Simulator.events_dict are modelled as filters over the registration list (insertion-ordered dicts/lists)",
@@ -300,7 +300,7 @@ def run(ctx, model_available=True):
             "distribution": dist, "monitor_checks": checks}
     # (T2) the translated source of the scheduler (the dispatch sites) under the mini-Python semantics, against CPython
     import py_checks
-    return py_checks.merge(res, ctx, ["runner"], n_each=100, model_available=model_available)
+    return py_checks.merge(res, ctx, ["runner", "simdispatch"], n_each=100, model_available=model_available)
 
 
 def search(ctx, res):
